@@ -30,7 +30,7 @@ RULE = (
 ASSUMPTIONS = [
     "history part: all ordered pairs (thorough: triples) of a small call alphabet chosen to collide in every shape-like cache key, each history in a forked child, compared with a fresh-process result",
     "bounded scope: 'all float maps' = all maps with h,w <= 3 (plus 1xN/Nx1 strips N<=5; thorough: 3x4, 4x3 over 3 levels and 4x4 over 2 levels) over <= 5 value levels {-1,0,0.3,0.5,1}, plus structured larger maps (3x3 enumerations embedded in 5x5/7x7 zero maps, one/two Gaussian bumps on 5x5 and 7x7)",
-    "thresholds {-2, 0, 0.3, 0.5} are passed as the float64 value of their float32 rounding, so that 'value == threshold' ties are exact in the maps' dtype (float32)",
+    "thresholds {-2, -0.5, 0, 0.3, 0.5} are passed as the float64 value of their float32 rounding, so that 'value == threshold' ties are exact in the maps' dtype (float32)",
     "refinement displacement bound is asserted on the domain where it exists mathematically: non-negative map and positive peak value (regression weights form a convex combination); 'half a patch' is read as the half-extent (patch-1)/2 of the patch's cell-centre grid, +1e-5 float32 slack; outside that domain only count/order/indices/values are asserted and the cases are counted (refine_outside_domain)",
     "packing independence is checked between layout A (N,1) and layout B (ceil(N/3),3) with the map order rotated (rotation depends on VERIF_SEED) -- other batch shapes are outside the bound",
 ]
@@ -40,7 +40,7 @@ ALPHA3 = [0.0, 0.3, 1.0]
 ALPHA4 = [-1.0, 0.0, 0.3, 1.0]
 ALPHA5 = [-1.0, 0.0, 0.3, 0.5, 1.0]
 ALPHA2 = [0.0, 1.0]
-THRESHOLDS = [-2.0, 0.0, 0.3, 0.5]
+THRESHOLDS = [-2.0, 0.0, 0.3, 0.5, -0.5]  # -0.5 lies BETWEEN map levels -1 and 0 (cells below a negative threshold next to peaks <= 0)
 PATCHES = [3, 5]
 BATCH = 16384  # maps per batched call (replay rebuilds one such batch)
 TOL = 1e-5
